@@ -93,6 +93,41 @@ def generate(cfgs, rnd):
     return scripts, gens
 
 
+def validate(traces, timeout=900, batch=4000):
+    """Validates recorded traces against TraceOneTime.tla. One TLC run classifies a whole batch: the trace spec reports
+    (TRACE-DRIFT-AT line / TRACE-INVARIANT name line) instead of stopping. Returns per trace dict(drift=index|None, inv=set)."""
+    import bisect, os, shutil
+    out = [dict(drift=None, inv=set()) for _ in traces]
+    for base in range(0, len(traces), batch):
+        chunk = traces[base:base + batch]
+        lines, starts = [], []
+        for t in chunk:
+            starts.append(len(lines) + 1)
+            lines.append(json.dumps({"ev": "reset"}))
+            lines.extend(json.dumps(e) for e in t)
+        work = vlib.scratch("trace")
+        try:
+            tf = os.path.join(work, "trace.ndjson")
+            with open(tf, "w") as fh:
+                fh.write("\n".join(lines) + "\n")
+            r = vlib.tlc("TraceOneTime", "OneTime.trace.cfg", workers=1, timeout=timeout, env={"VERIF_TRACE": tf}, deque=True)
+        finally:
+            shutil.rmtree(work, ignore_errors=True)
+        if r.error or r.violation or "TRACE-REJECTED-AT" in r.raw:
+            raise Inconclusive("trace validation did not run to the end: %s %s\n%s" % (r.violation, r.error, r.raw[-2000:]))
+        if r.distinct < len(lines):
+            raise Inconclusive("trace validation consumed %d of %d events" % (r.distinct, len(lines)))
+        for m in re.finditer(r'<<"TRACE-DRIFT-AT", (\d+)>>', r.raw):
+            ln = int(m.group(1))
+            i = bisect.bisect_right(starts, ln) - 1
+            if out[base + i]["drift"] is None:
+                out[base + i]["drift"] = ln - starts[i] - 1
+        for m in re.finditer(r'<<"TRACE-INVARIANT", "(\w+)", (\d+)>>', r.raw):
+            i = bisect.bisect_right(starts, int(m.group(2))) - 1
+            out[base + i]["inv"].add(m.group(1))
+    return out
+
+
 def execute(binary, scripts):
     if not scripts:
         return []
@@ -153,7 +188,7 @@ def run(prop, tier, seed, replay=None):
         per_kind[k]["ticks"] += sum(1 for e in r["trace"] if e["ev"] == "tick")
         for o in r["outcomes"].values():
             per_kind[k]["flavour:" + o["flavour"] + ("/" + o["variant"] if o.get("variant") else "")] += 1
-        ttl[k] = r.get("secret_ttl_s")
+        ttl[k] = r.get("secret_ttl_s") or next((e["ttl_s"] for e in r["trace"] if e["ev"] == "op" and e["op"] == "set"), ttl.get(k, 0))
         for v in r["violations"]:
             sig = signature(v)
             if sig["kind"] == "double-success" and sig["pattern"] == "concurrent":
@@ -180,34 +215,34 @@ def run(prop, tier, seed, replay=None):
 
     # ---- the recorded real traces are behaviours of the specification (and the real verdicts are the derived ones)
     good = [r for r in results if not r.get("error")]
-    clean = [r for r in good if not any(v["kind"] == "double-success" for v in r["violations"])]
-    dirty = [r for r in good if any(v["kind"] == "double-success" for v in r["violations"])]
-    acc = 0
+    verdicts = validate([r["trace"] for r in good])
     rej_all = []
-    for part, cfg in ((clean, "OneTime.trace.cfg"), (dirty, "OneTime.trace.known.cfg")):
-        traces = [r["trace"] for r in part]
-        a, rej = vlib.validate_traces("TraceOneTime", cfg, traces, timeout=900, batch=1500)
-        acc += a
-        for x in rej:
-            x["script"] = part[x["index"]]["id"]
-            x["kind_of_secret"] = part[x["index"]]["kind"]
-            rej_all.append(x)
-            if x["kind"].startswith("invariant:"):
-                # a property invariant failed on the state reconstructed from a REAL execution
-                r = part[x["index"]]
-                rep.violation(dict(kind="trace-" + x["kind"], site=r["site"], pattern="trace"),
-                              dict(property=prop, rejected=x, input=dict(scripts=[by_id[r["id"]]])))
-    for x in rej_all[:5]:
-        rep.notes.append("DRIFT: trace of script %s (%s) rejected at event %s (%s)" % (x["script"], x["kind_of_secret"], json.dumps(x["event"]), x["kind"]))
-    ntr = len(clean) + len(dirty)
-    if len(rej_all) > max(3, ntr // 20) and not rep.violations:
-        rep.inconclusive.append("%d of %d recorded traces are not behaviours of the specification (spec/code drift)" % (len(rej_all), ntr))
+    for r, v in zip(good, verdicts):
+        oracle_double = any(x["kind"] == "double-success" for x in r["violations"])
+        for inv in sorted(v["inv"]):
+            if inv == "AtMostOnce" and oracle_double:
+                continue            # the same real execution, already reported with its precise signature by the Go oracle
+            # a property invariant failed on the state reconstructed from a REAL execution
+            rej_all.append(dict(script=r["id"], kind_of_secret=r["kind"], kind="invariant:" + inv, event=None))
+            rep.violation(dict(kind="trace-invariant:" + inv, site=r["site"], pattern="trace"),
+                          dict(property=prop, rejected=inv, input=dict(scripts=[by_id[r["id"]]])))
+        if oracle_double and "AtMostOnce" not in v["inv"] and v["drift"] is None:
+            rep.notes.append("DRIFT: script %s: the Go oracle counted two successes, the reconstructed model state has at most one" % r["id"])
+        if v["drift"] is not None:
+            rej_all.append(dict(script=r["id"], kind_of_secret=r["kind"], kind="no-matching-action", event=r["trace"][v["drift"]]))
+    ndrift_tr = sum(1 for x in rej_all if x["kind"] == "no-matching-action")
+    for x in [x for x in rej_all if x["kind"] == "no-matching-action"][:5]:
+        rep.notes.append("DRIFT: trace of script %s (%s) leaves the specification at event %s" % (x["script"], x["kind_of_secret"], json.dumps(x["event"])))
+    ntr = len(good)
+    acc = ntr - len(set(x["script"] for x in rej_all))
+    if ndrift_tr > max(3, ntr // 20) and not rep.violations:
+        rep.inconclusive.append("%d of %d recorded traces are not behaviours of the specification (spec/code drift)" % (ndrift_tr, ntr))
 
     if not samples and results:
         r = next((x for x in good if len(x["trace"]) > 6), good[0] if good else results[0])
         samples.append(dict(site=r.get("site"), schedule=by_id[r["id"]]["steps"], real_trace=r.get("trace")))
     cov = dict(states=states, transitions=transitions, traces_validated_against_impl=ntr, traces_accepted=acc,
-               traces_rejected=len(rej_all), samples=samples, models=models, generation=gens,
+               traces_rejected=ntr - acc, samples=samples, models=models, generation=gens,
                behaviours_replayed_on_real_code=len(results), exhaustive=True,
                requests_executed=sum(c["requests"] for c in per_kind.values()),
                per_site={SITE.get(k, k): dict(c) for k, c in sorted(per_kind.items())},
@@ -225,5 +260,5 @@ def run(prop, tier, seed, replay=None):
                     "TLC against TraceOneTime.tla including the real verdict of each request" % ("" if quick else " and 3"))
     vlib.write_evidence(prop, tier, seed, "model_checking", cov, time.time() - t0, len(rep.violations), ASSUMPTIONS)
     print("C05: %d schedules replayed, %d traces validated (%d rejected), model states %d, %.1fs"
-          % (len(results), ntr, len(rej_all), states, time.time() - t0))
+          % (len(results), ntr, ntr - acc, states, time.time() - t0))
     return rep.finish()
